@@ -264,7 +264,7 @@ serialised, so the sequential theorem `offsets_increasing` applies to every inte
 theorem appends_serialised : Ebu.Locks.CallbacksOk Ebu.Generated.callbackFacts = true :=
   Ebu.Props.C03.facts_callbacks_lock_free
 """),
- "C10": ("Ebu.Props.C03\nimport Ebu.Proofs.PersistConc", """/-- concurrent appenders, every schedule (M2p read as "threads calling MemoryStore.Append": reserve-and-insert is
+ "C10": ("Ebu.Props.C03\nimport Ebu.Proofs.PersistConc\nimport Ebu.Generated.SqlFacts", """/-- concurrent appenders, every schedule (M2p read as "threads calling MemoryStore.Append": reserve-and-insert is
 one step because both happen under the store's write lock, see `memory_store_locked` below): offsets are handed out
 1, 2, 3, … in log order, one record per append, and without the lock two appenders can get the same offset -/
 theorem concurrent_appends_increasing (recs sched : List Nat) :
@@ -272,6 +272,13 @@ theorem concurrent_appends_increasing (recs sched : List Nat) :
     s.log.map (·.1) = List.range' 1 s.log.length ∧ (s.log.map (·.2)).Perm (Ebu.PersistConc.persistedRecs s) ∧
     (([0, 1, 0, 1].foldl Ebu.PersistConc.ustepAt { threads := [{ record := 7 }, { record := 8 }] }).log.map (·.1)) = [1, 1] :=
   ⟨(Ebu.PersistConc.offsets_ok recs sched).1, Ebu.PersistConc.log_ok recs sched, Ebu.PersistConc.unlocked_duplicates_offsets⟩
+
+/-- … and `MemoryStore.Append` is that one step in the CURRENT source: offset reservation and insertion share one
+write-locked critical section; the SQLite store leaves its connection pool unconstrained (an in-memory database lives as
+long as one connection is open, and a reader must not starve a writer of connections) -/
+theorem memory_append_one_step_sqlite_pool_free : Ebu.Locks.MemAppendAtomic Ebu.Generated.accessFacts = true ∧
+    Ebu.Generated.Sql.poolCalls = [] :=
+  ⟨Ebu.Props.C03.facts_memstore_append_atomic, by decide⟩
 
 /-- the memory store's offset counter and event slice are only touched under its mutex (write
 locked for Append) in the CURRENT source: concurrent appenders cannot interleave "reserve offset"
@@ -351,7 +358,7 @@ theorem offset_formats_match_source :
     fmt20 = digitsW Ebu.Generated.Consts.memOffsetWidth := by
   refine ⟨by decide, by decide, by decide, by decide, by decide, by decide, rfl⟩
 """),
- "C11": ("Ebu.Generated.Consts\nimport Ebu.Generated.SqlFacts", """/-- OBLIGATION on the current source: every SELECT over the events table (paged read, stream, batched stream) is a
+ "C11": ("Ebu.Generated.Consts\nimport Ebu.Generated.SqlFacts\nimport Ebu.Props.C03", """/-- OBLIGATION on the current source: every SELECT over the events table (paged read, stream, batched stream) is a
 position cursor – `WHERE position > ? ORDER BY position`, optionally `LIMIT ?` – as the models of `Read`, the stream and
 `replaySqlBatched` assume; none pages with OFFSET (which counts rows instead of remembering where it was) -/
 theorem sqlite_reads_are_position_cursors :
@@ -359,6 +366,11 @@ theorem sqlite_reads_are_position_cursors :
     (Ebu.Generated.Sql.readSqls.all (fun st =>
       (st.drop 8).take 7 == ["FROM", "events", "WHERE", "position", ">", "?", "ORDER"] && !st.contains "OFFSET" &&
       (st.drop 15 == ["BY", "position"] || st.drop 15 == ["BY", "position", "LIMIT", "?"]))) = true := by decide
+
+/-- replays select by `offset > from`: that is only right on a log whose offsets increase in log order, which for the
+memory store rests on `Append` being one critical section in the CURRENT source -/
+theorem memory_log_in_offset_order : Ebu.Locks.MemAppendAtomic Ebu.Generated.accessFacts = true :=
+  Ebu.Props.C03.facts_memstore_append_atomic
 
 /-- the model's default batch size is the one in the CURRENT source (extracted from Replay) -/
 theorem default_batch_matches_source : effBatch 0 = Ebu.Generated.Consts.replayDefaultBatch ∧ effBatch (-5) = Ebu.Generated.Consts.replayDefaultBatch := by
